@@ -104,5 +104,20 @@ REGISTRY["C18"] = dict(
          "code; the logical dump must equal the RamStorage plain-writer baseline and BufferedWriter.searcher() must see committed+buffered.",
     note=_BOUNDED + "  MpWriter sub-process timing, the async retry thread timing and the flush timer are outside the claim.")
 
+REGISTRY["C10"] = dict(
+    modules=["harness.c10_postings"],
+    technique="CrossHair symbolic document/codec/format codes over the real analysis->writer->codec->reader path; postings, term statistics and vectors vs the analyzer's own output transposed",
+    text="Each document's token sequence, the posting format and the codec configuration (block limit, compression, inlining, in-memory "
+         "codec) are symbolic codes; the real writer/codec/reader stack must read back ids, weights (float32), positions, characters, "
+         "boosts, term statistics, vectors and field lengths equal to the transposed analyzer output.",
+    note=_BOUNDED)
+REGISTRY["C12"] = dict(
+    modules=["harness.c12_quality"], e2=True,
+    technique="CrossHair symbolic query/threshold codes over real matchers and scorers (bounds at every position, skip_to_quality/replace never lose an entry above the threshold) + z3 reals through the real bm25()",
+    text="For matchers compiled from real queries on real multi-block segments with the shipped scorers: block_quality >= current score, "
+         "max_quality >= every remaining score, skip_to_quality(q)/replace(q) keep every entry scoring above q for q from a symbolic "
+         "threshold code; the real bm25() on z3 Reals is bounded by its value at (max weight, min length) over the documented domain.",
+    note=_BOUNDED)
+
 _PENDING = "check not built yet in this round (work in progress; see DESIGN.md section 4)"
 NOT_APPLICABLE = {("C%02d" % i): _PENDING for i in range(1, 21) if ("C%02d" % i) not in REGISTRY}
